@@ -262,7 +262,7 @@ theorem iuonv_sound (c : E) (a : String) (neg : Bool) (h : isUndefinedOrNullVar 
       · simp [hop2] at h
   | _ => simp [hci] at h
 
-/-- `a==null?b:a → a??b`, `a!=null?a:b → a??b` -/
+/-- `a==null?b:a → a??b`, `a!=null?a:b → a??b`, `a==null?undefined:a.b.c → a?.b.c` -/
 theorem toNullish_sound (c x y e : E) (h : toNullish c x y = .yes e) : eval H e = eval H (.cond c x y) := by
   unfold toNullish at h
   cases hi : isUndefinedOrNullVar c with
@@ -296,7 +296,29 @@ theorem toNullish_sound (c x y e : E) (h : toNullish c x y = .yes e) : eval H e 
       by_cases hu : isUndefined (if neg then y else x) = true
       · rw [if_pos hu] at h
         by_cases hcb : ((chainBase (if neg then x else y)).2 && isEqualExpr (.var v) (chainBase (if neg then x else y)).1) = true
-        · rw [if_pos hcb] at h; cases h
+        · rw [if_pos hcb] at h
+          -- `a==null?undefined:a.b.c ⇒ a?.b.c`: the absent branch evaluates to `undefined`, which is what the
+          -- short-circuited chain yields
+          by_cases hbad : (v == "undefined" || v == "NaN") = true
+          · rw [if_pos hbad] at h; cases h
+          · rw [if_neg hbad] at h
+            injection h with h; subst h
+            funext s
+            have hc := iuonv_sound (H := H) c v neg hi s
+            obtain ⟨u, hu1, hu2⟩ := isUndefined_pure (H := H) _ hu s
+            subst hu2
+            simp only [eval_opt, eval_cond, bindM, hc, getVar, testVal]
+            cases neg with
+            | true =>
+              simp only [if_true] at hu1 ⊢
+              by_cases hnl : isNullish (lookup s v) = true
+              · simp [hnl, hu1, retM]
+              · simp [hnl]
+            | false =>
+              simp only [Bool.false_eq_true, if_false] at hu1 ⊢
+              by_cases hnl : isNullish (lookup s v) = true
+              · simp [hnl, hu1, retM]
+              · simp [hnl]
         · rw [if_neg hcb] at h; cases h
       · rw [if_neg hu] at h; cases h
 
